@@ -1,5 +1,177 @@
-import Cpppo.Model.Times
+import Cpppo.Proofs.Times
 import Cpppo.Generated.Tables
+
+/-!
+# C17 — Timestamps and durations survive render/parse; ordering matches the rendering
+
+Theorems about the model `Cpppo.Times` (the code after the two `fix:` patches, see the model file).
+Instants are integer microseconds `μ` plus the sign `bias` of the binary64 representation error;
+every theorem quantifies over all `μ`, all `bias`, all precisions `p ≤ 6` and all zone tables.
+-/
 namespace Cpppo.Times
-theorem stub : pow10 0 = 1 := rfl
+
+/-- the instant that a rendering with `p` sub-second digits denotes: `ms=False` truncates to the
+second, `p ≥ 1` rounds to `10^-p` s (carrying into the next second / day / year when it must) -/
+def renderedInstant (p : Nat) (μ bias : Int) : Int :=
+  if p = 0 then μ / 1000000 * 1000000 else roundTo p μ bias
+
+/-- the suffix `render` appends -/
+def suffixOf (zone : Option Zone) (detail : Detail) (per : Period) : List Char :=
+  match detail, zone with
+  | .dflt, none => []
+  | .dflt, some _ => ' ' :: per.abbr
+  | .full, _ => ' ' :: (zone.getD utcZone).name
+  | .numeric, _ => numericOffset per.off
+
+/-- what a successful `render` has computed -/
+theorem render_eq (p : Nat) (hp : p ≤ 6) (μ bias : Int) (zone : Option Zone) (detail : Detail)
+    (text : List Char) (h : render p μ bias zone detail = some text) :
+    let v := renderInstant p μ bias
+    let us := v / 1000000
+    let per := periodAt (zone.getD utcZone) us
+    let c := civilOfSecs (us + per.off)
+    let frac := (v % 1000000).toNat / pow10 (6 - p)
+    InRange us ∧ c.valid = true ∧ frac < pow10 p ∧
+      text = formatCivil c p frac ++ suffixOf zone detail per := by
+  unfold render renderWith at h
+  simp only [] at h
+  split at h
+  · exact absurd h (by simp)
+  · rename_i hr
+    simp only [Bool.or_eq_true, decide_eq_true_eq, not_or, Int.not_lt, gt_iff_lt] at hr
+    simp only [if_true, Option.some.injEq] at h
+    refine ⟨⟨hr.1.1.1, hr.1.1.2⟩, civilOfSecs_valid _ hr.1.2 hr.2, ?_, ?_⟩
+    · exact frac_lt p hp _ (by omega)
+    · rw [← h]
+      unfold suffixOf
+      cases detail <;> cases zone <;> rfl
+
+/-- a rendering denotes `renderedInstant`: seconds and fraction digits recombine to it -/
+theorem recombine (p : Nat) (hp : p ≤ 6) (μ bias : Int) :
+    renderInstant p μ bias / 1000000 * 1000000
+      + microOf p ((renderInstant p μ bias % 1000000).toNat / pow10 (6 - p)) = renderedInstant p μ bias := by
+  unfold renderInstant renderedInstant
+  by_cases h0 : p = 0
+  · simp only [h0, if_true, microOf]; omega
+  · simp only [h0, if_false]
+    rw [micro_of_rounded p μ bias (by omega) hp]
+    omega
+
+/-- **Render/parse round trip in UTC**, for every instant and every precision 0..6: the plain UTC
+rendering parses back to the rendered instant (truncated to the second for `p = 0`, rounded to
+`10^-p` s otherwise — including the carry into the next second, day, month and year). -/
+theorem render_parse_utc (p : Nat) (hp : p ≤ 6) (μ bias : Int) (db : TzDb) (text : List Char)
+    (h : render p μ bias none .dflt = some text) :
+    parse db text = .ok (renderedInstant p μ bias) := by
+  obtain ⟨hr, hv, hf, ht⟩ := render_eq p hp μ bias none .dflt text h
+  simp only [Option.getD_none] at hr hv hf ht
+  have hper : ∀ u, periodAt utcZone u = utcPeriod := fun _ => rfl
+  rw [hper] at hv ht
+  simp only [suffixOf, List.append_nil] at ht
+  rw [ht, parse_format_plain db _ p _ hv hp hf]
+  unfold instantOf
+  rw [secsOfCivil_civilOfSecs]
+  have hloc := localize_unique_case utcZone (renderInstant p μ bias / 1000000 + utcPeriod.off) utcPeriod rfl rfl
+    (by show _ + (periodAt utcZone _).off = _; rw [hper]; simp [utcPeriod])
+    (by simpa [utcPeriod] using hr) none
+  rw [hloc]
+  simp only [utcPeriod, Int.add_zero, Int.sub_zero]
+  rw [if_neg (by rw [Bool.not_eq_true]; exact (inRange_iff _).2 hr)]
+  rw [recombine p hp μ bias]
+
+/-! ### zones -/
+
+/-- **`localize` accepts exactly the wall-clock times with one preimage** (zone given without
+daylight-saving designation, well-formed table, candidate instant within years 1..9999):
+it answers `nonexistent` iff no UTC second has that local time, `ambiguous` iff at least two have,
+and otherwise returns the unique one. -/
+theorem localize_reject_iff (z : Zone) (hwf : z.wf = true) (w : Int)
+    (hr : InRange (w - (wallPeriod false z w).off)) :
+    (localize z none w = .error .nonexistent ↔ ∀ u, ¬ IsPre z w u) ∧
+    (localize z none w = .error .ambiguous ↔ ∃ u1 u2, u1 ≠ u2 ∧ IsPre z w u1 ∧ IsPre z w u2) ∧
+    (∀ u, localize z none w = .ok u ↔ (IsPre z w u ∧ ∀ u', IsPre z w u' → u' = u)) := by
+  rcases zone_situation z hwf w with ⟨P, h0, h1, hpre, huniq⟩ | ⟨hoff, hnone⟩ | ⟨hoff, hpre0, hpre1⟩
+  · have hloc := localize_unique_case z w P h0 h1 hpre (by rw [← h0]; exact hr) none
+    rw [hloc]
+    refine ⟨⟨fun h => by simp at h, fun h => absurd hpre (h _)⟩, ⟨fun h => by simp at h, ?_⟩, ?_⟩
+    · rintro ⟨u1, u2, hne, h1', h2'⟩
+      exact absurd ((huniq u1 h1').trans (huniq u2 h2').symm) hne
+    · intro u
+      constructor
+      · intro h; simp only [Except.ok.injEq] at h; subst h; exact ⟨hpre, huniq⟩
+      · rintro ⟨hu, _⟩; rw [huniq u hu]
+  · have hloc := localize_gap_case z w (fun u hu => hnone u hu) hr
+    rw [hloc]
+    refine ⟨⟨fun _ u hu => hnone u hu, fun _ => rfl⟩, ⟨fun h => by simp at h, ?_⟩, ?_⟩
+    · rintro ⟨u1, _, _, h1', _⟩; exact absurd h1' (hnone u1)
+    · intro u
+      constructor
+      · intro h; simp at h
+      · rintro ⟨hu, _⟩; exact absurd hu (hnone u)
+  · have hloc := localize_overlap_case z w hoff hpre0 hr
+    rw [hloc]
+    refine ⟨⟨fun h => by simp at h, fun h => absurd hpre0 (h _)⟩, ⟨fun _ => ?_, fun _ => rfl⟩, ?_⟩
+    · exact ⟨_, _, by omega, hpre0, hpre1⟩
+    · intro u
+      constructor
+      · intro h; simp at h
+      · rintro ⟨hu, hall⟩
+        have e0 := hall _ hpre0
+        have e1 := hall _ hpre1
+        omega
+
+/-- **Zone round trip** (rendering with the zone key, `tzdetail=True`): for every instant, every
+precision and every well-formed zone table whose key the parser resolves to that table, parsing
+the rendering either returns the rendered instant (and its wall-clock time has that instant as its
+only preimage), or is refused as ambiguous (and the wall-clock time has two different preimages),
+or — only at the edge of year 1 — is refused because the other candidate instant is outside
+years 1..9999.  In particular it never returns a different instant, and is never refused as
+nonexistent. -/
+theorem zone_roundtrip (p : Nat) (hp : p ≤ 6) (μ bias : Int) (z : Zone) (hwf : z.wf = true)
+    (hname : ZoneWord z.name) (db : TzDb) (hdb : db.info z.name = .ok (z, none)) (text : List Char)
+    (h : render p μ bias (some z) .full = some text) :
+    let us := renderInstant p μ bias / 1000000
+    let w := us + (periodAt z us).off
+    (parse db text = .ok (renderedInstant p μ bias) ∧ ∀ u, IsPre z w u → u = us) ∨
+    (parse db text = .error .ambiguous ∧ ∃ u1 u2, u1 ≠ u2 ∧ IsPre z w u1 ∧ IsPre z w u2) ∨
+    (parse db text = .error .value ∧ ¬ InRange (w - (wallPeriod false z w).off)) := by
+  obtain ⟨hr, hv, hf, ht⟩ := render_eq p hp μ bias (some z) .full text h
+  simp only [Option.getD_some] at hr hv hf ht
+  simp only [suffixOf, Option.getD_some] at ht
+  intro us w
+  have hparse : parse db text = instantOf z none (civilOfSecs w)
+      (microOf p ((renderInstant p μ bias % 1000000).toNat / pow10 (6 - p))) := by
+    rw [ht]; exact parse_format_zone db _ p _ hv hp hf z.name hname z none hdb
+  rw [hparse]
+  unfold instantOf
+  rw [secsOfCivil_civilOfSecs]
+  have hus : IsPre z w us := rfl
+  by_cases hrange : InRange (w - (wallPeriod false z w).off)
+  · rcases zone_situation z hwf w with ⟨P, h0, h1, hpre, huniq⟩ | ⟨hoff, hnone⟩ | ⟨hoff, hpre0, hpre1⟩
+    · left
+      have hloc := localize_unique_case z w P h0 h1 hpre (by rw [← h0]; exact hrange) none
+      have hP : us = w - P.off := huniq us hus
+      rw [hloc, ← hP]
+      simp only []
+      rw [if_neg (by rw [Bool.not_eq_true]; exact (inRange_iff _).2 hr)]
+      refine ⟨by rw [recombine p hp μ bias], fun u hu => ?_⟩
+      rw [huniq u hu, hP]
+    · exact absurd hus (hnone us)
+    · right; left
+      rw [localize_overlap_case z w hoff hpre0 hrange]
+      exact ⟨rfl, _, _, by omega, hpre0, hpre1⟩
+  · right; right
+    rw [localize_out_of_range z none w hrange]
+    exact ⟨rfl, hrange⟩
+
+/-- the zone-key rendering **never parses to a different instant** -/
+theorem zone_never_different (p : Nat) (hp : p ≤ 6) (μ bias : Int) (z : Zone) (hwf : z.wf = true)
+    (hname : ZoneWord z.name) (db : TzDb) (hdb : db.info z.name = .ok (z, none)) (text : List Char)
+    (h : render p μ bias (some z) .full = some text) (v : Int) (hparse : parse db text = .ok v) :
+    v = renderedInstant p μ bias := by
+  rcases zone_roundtrip p hp μ bias z hwf hname db hdb text h with ⟨h1, _⟩ | ⟨h1, _⟩ | ⟨h1, _⟩
+  · rw [h1] at hparse; exact (Except.ok.inj hparse).symm
+  · rw [h1] at hparse; exact absurd hparse (by simp)
+  · rw [h1] at hparse; exact absurd hparse (by simp)
+
 end Cpppo.Times
